@@ -101,7 +101,7 @@ def rows(prop, engines=('map', 'set')):
 
 HIST_RULE = ('Iterators are consumed by plain next() loops and, in dedicated adaptor steps, through nth / skip / step_by / last / fold / count / for_each / take / by_ref. Cases are monitored steps of random operation histories (8..96 steps, workload profiles uniform / fill / '
              'churn-at-full / drain-down / revisit) started from an empty container, for capacities N in {0,1,2,3,4,8} and, for the Copy family, 40 and 70 (beyond the 32- and 64-slot marks) '
-             '(thorough adds 5,16,32; one Copy history in 1200 runs at N = 300, slot numbers beyond one byte) and the element families named in each job (track = ledger-tracked, tiny = one-byte key with its own ==, word = four-byte key with its own == and a niche value, align = 64-/32-byte aligned pairs, odd = 3-byte key and 6-byte value of alignment 1, k12 = 12-byte key with its tag in the trailing bytes, large = 128-/512-byte tracked pairs); after every step a full observation sweep '
+             '(thorough adds 5,16,32; one Copy history in 1200 runs at N = 300, slot numbers beyond one byte) and the element families named in each job (track = ledger-tracked, tiny = one-byte key with its own ==, word = four-byte key with its own == and a niche value, align = 64-/32-byte aligned pairs, odd = 3-byte key and 6-byte value of alignment 1, k12 = 12-byte key with its tag in the trailing bytes, path = PathBuf keys looked up by &Path written differently (unsized borrowed form whose == equates values of different length), large = 128-/512-byte tracked pairs); after every step a full observation sweep '
              'compares the real container with the reference model. A case is non-trivial when the pre-state is non-empty or '
              'the operation mutates.')
 
@@ -109,14 +109,14 @@ ALLCAPS = '0,1,2,3,4,5,8,16,32,40,70'
 
 
 def _c01(tier):
-    a = '--fam track,track,copy,raw,zst,nodrop,tiny,word,align,odd,k12,large' + (' --caps ' + ALLCAPS if tier == 'thorough' else '')
+    a = '--fam track,track,copy,raw,zst,nodrop,tiny,word,align,odd,k12,large,path' + (' --caps ' + ALLCAPS if tier == 'thorough' else '')
     m = '--fam track,track,raw,align,tiny --caps 0,1,2,3,4 --max-steps 48'
     raw = '--fam raw --caps 0,1,2,3,4,8 --no-forget'
     return hist_jobs('C01', tier, a, a, engines=('map',), std=True, miri=(16, 150, 1500, {'map': m}), asan=(8, 2_000_000, {'map': raw}))
 
 
 def _c07(tier):
-    a = '--fam track,track,copy,raw,zst,nodrop,tiny,word,align,odd,k12,large' + (' --caps ' + ALLCAPS if tier == 'thorough' else '')
+    a = '--fam track,track,copy,raw,zst,nodrop,tiny,word,align,odd,k12,large,path' + (' --caps ' + ALLCAPS if tier == 'thorough' else '')
     m = '--fam track,track,raw,align,tiny --caps 0,1,2,3,4 --max-steps 48'
     raw = '--fam raw --caps 0,1,2,3,4,8 --no-forget'
     return hist_jobs('C07', tier, a, a, engines=('set',), std=True, miri=(16, 150, 1500, {'set': m}), asan=(8, 2_000_000, {'set': raw}))
@@ -197,7 +197,7 @@ plan('C02', jobs=_c02, rule=HIST_RULE + ' Consuming iterators and drains are aba
      design_ref='DESIGN.md section 3, C02')
 
 def _c05(tier):
-    jobs = _simple_hist('C05', tier, fam='track,track,copy,zst,tiny,word,align,odd,k12,large', miri=(150, 1500, True))
+    jobs = _simple_hist('C05', tier, fam='track,track,copy,zst,tiny,word,align,odd,k12,large,path', miri=(150, 1500, True))
     # deserialisation is an operation too (feature serde): payloads that micromap did not write - sequences of
     # pairs / elements with repeats, with and without an announced length - must leave a well-formed container
     jobs.append(J('C05', 'dbg/serde-foreign', 'dbg-serde', 'eng_serde', '', 4, q(tier, 12_000, 600_000), covp='sd/'))
@@ -229,7 +229,7 @@ plan('C10', jobs=lambda t: _mem_hist('C10', t, fam='track,track,copy,zst,tiny,al
      level_note='For a forgotten drain only safety and well-formedness are demanded (the property promises nothing more).',
      design_ref='DESIGN.md section 3, C10')
 
-plan('C12', jobs=lambda t: _simple_hist('C12', t, fam='track,track,large,nodrop,tiny,word,align,odd,k12', miri=(150, 1500, True)), rule=HIST_RULE + ' Keys of one class carry distinct tags, so the stored key object is identifiable; half of the inserting operations reuse a present class with a fresh tag.',
+plan('C12', jobs=lambda t: _simple_hist('C12', t, fam='track,track,large,nodrop,tiny,word,align,odd,k12,path', miri=(150, 1500, True)), rule=HIST_RULE + ' Keys of one class carry distinct tags, so the stored key object is identifiable; half of the inserting operations reuse a present class with a fresh tag.',
      required=rows('C12'),
      title='stored-key identity',
      technique='runtime monitoring: identity (tag + ledger id) sweep of the stored key object after every step, against a model that tracks which key object must be stored',
@@ -269,6 +269,9 @@ def _c04(tier):
         J('C04', 'rel/exhaustive', 'rel', 'eng_panic', '--fam track --space 0,1,2,3,4', 8, 1, exh=True),
         J('C04', 'rel/random-big', 'rel', 'eng_panic', '--fam track --space 0 --big %d' % q(tier, 60_000, 3_000_000), 8, 1),
         J('C04', 'dbg/heap', 'dbg', 'eng_panic', '--fam heap --space 0,1,2,3', 4, 1),
+        # elements WITHOUT drop glue whose Clone / == unwind (paths a container takes only for !needs_drop types)
+        J('C04', 'dbg/nodrop', 'dbg', 'eng_panic', '--fam nodrop --space 0,1,2,3', 4, 1),
+        J('C04', 'rel/nodrop', 'rel', 'eng_panic', '--fam nodrop --space 0,1,2,3,4', 4, 1),
         # 640-byte pairs: code paths that depend on the size of the element type
         J('C04', 'rel/large', 'rel', 'eng_panic', '--fam large --space 0,1,2 --big %d' % q(tier, 4000, 200000), 4, 1),
     ]
@@ -354,7 +357,7 @@ plan('C13', jobs=_c13,
 
 
 def _c18(tier):
-    a = '--fam track,copy,large,zst' + (' --caps ' + ALLCAPS if tier == 'thorough' else '')
+    a = '--fam track,track,copy,large,zst,tiny,word,odd,k12,path' + (' --caps ' + ALLCAPS if tier == 'thorough' else '')
     m = '--fam track --caps 0,1,2,3,4 --max-steps 48'
     jobs = hist_jobs('C18', tier, a, a, engines=('map',), miri=(8, 200, 2000, {'map': m}), mirirel=(8, 200, 2000, {'map': m}),
                      asan=(8, 3_000_000, {'map': '--fam raw,track --caps 0,1,2,3,4,8 --no-forget'}),
@@ -434,6 +437,10 @@ def _c11(tier):
         J('C11', 'dbg/u4', 'dbg', 'eng_entry', '--random %d' % q(tier, 20000, 3000000), 8, 1, exh=True),
         J('C11', 'rel/u4', 'rel', 'eng_entry', '--random %d' % q(tier, 60000, 10000000), 8, 1, exh=True),
         J('C11', 'miri/u3', 'miri', 'eng_entry', '--tiny', 16, 1, light=True, timeout=q(tier, 1500, 7200)),
+        # the entry API as an operation of random histories on every element family, judged against the
+        # reference model of the direct operations (h/ rows)
+        J('C11', 'dbg/hist', 'dbg', 'eng_map', '--fam track,track,copy,zst,nodrop,tiny,word,odd,k12,align,large', 8, q(tier, 60_000, 1_500_000), covp='h/'),
+        J('C11', 'rel/hist', 'rel', 'eng_map', '--fam track,track,copy,zst,nodrop,tiny,word,odd,k12,align,large', 8, q(tier, 200_000, 6_000_000), covp='h/'),
     ]
     if tier == 'thorough':
         jobs.append(J('C11', 'mirirel/u3', 'mirirel', 'eng_entry', '--tiny', 16, 1, light=True, timeout=7200))
@@ -441,11 +448,11 @@ def _c11(tier):
 
 
 plan('C11', jobs=_c11,
-     rule='A case is (map state, key, entry method chain). States: ALL slot layouts over a 4-class universe for N in {0,1,2,3,4,8}; keys: every stored key (so first / middle / last slot) and an absent key; chains: 22 enumerated method chains of length 1..3 covering key, or_insert, or_insert_with, or_insert_with_key, or_default, and_modify (once and twice), every OccupiedEntry method (key/get/get_mut/insert/remove/remove_entry/into_mut) and every VacantEntry method (key/into_key/insert), alone and combined. Twin A runs the chain, twin B the direct operations; random larger states (N = 8, 16) on top. Every case is non-trivial; distinct by (N, slot order, key, chain).',
+     rule='A case is (map state, key, entry method chain). States: ALL slot layouts over a 4-class universe for N in {0,1,2,3,4,8}; keys: every stored key (so first / middle / last slot) and an absent key; chains: 25 enumerated method chains of length 1..3 (three of them with a closure that unwinds) covering key, or_insert, or_insert_with, or_insert_with_key, or_default, and_modify (once and twice), every OccupiedEntry method (key/get/get_mut/insert/remove/remove_entry/into_mut) and every VacantEntry method (key/into_key/insert), alone and combined. Twin A runs the chain, twin B the direct operations; random larger states (N = 8, 16) on top. Every case is non-trivial; distinct by (N, slot order, key, chain).',
      required=['or_insert:miss:partial', 'or_insert:hit-last:full', 'or_insert_with:hit-first', 'or_insert_with_key:miss', 'or_default:miss', 'and_modify.or_insert:hit-middle',
                'occ.insert|vac.insert.write:hit-last', 'occ.remove|vac.key:hit-first', 'occ.remove_entry|vac.into_key:hit-middle', 'occ.into_mut.write|vac.insert:miss:partial',
-               'both-panic(full map, vacant insert)', 'random-state', 'zst:N=1', 'zst:N=3'],
-     exhaustive_subspace='all slot layouts over a 4-class universe for N in {0,1,2,3,4,8} x every present key and one absent key x 22 entry method chains',
+               'both-panic(full map, vacant insert)', 'both-panic(user closure)', 'random-state', 'zst:N=1', 'zst:N=3', 'h/entry.'],
+     exhaustive_subspace='all slot layouts over a 4-class universe for N in {0,1,2,3,4,8} x every present key and one absent key x 25 entry method chains',
      assumptions=NATIVE_ASSUME + SAN_ASSUME,
      title='entry API',
      technique='runtime monitoring: twin-container monitor (entry chain vs the direct operations on an identically built map), closure-call counters, returned-reference address monitor, ledger identity of all other entries; bounded-exhaustive (state x key x chain) space; Miri for the unchecked slot access of OccupiedEntry',
@@ -456,8 +463,8 @@ plan('C11', jobs=_c11,
 
 def _c03(tier):
     jobs = [
-        J('C03', 'dbg/framed', 'dbg', 'eng_full', '--fam track,copy,large,zst', 6, q(tier, 60, 3000)),
-        J('C03', 'rel/framed', 'rel', 'eng_full', '--fam track,copy,large,zst', 6, q(tier, 200, 12000)),
+        J('C03', 'dbg/framed', 'dbg', 'eng_full', '--fam track,copy,large,zst,tiny,word,odd,k12,align', 6, q(tier, 60, 3000)),
+        J('C03', 'rel/framed', 'rel', 'eng_full', '--fam track,copy,large,zst,tiny,word,odd,k12,align', 6, q(tier, 200, 12000)),
         J('C03', 'dbg/heap-elems', 'dbg', 'eng_full', '--fam raw,heap', 2, q(tier, 60, 3000)),
         J('C03', 'rel/heap-elems', 'rel', 'eng_full', '--fam raw,heap', 2, q(tier, 200, 12000)),
         J('C03', 'miri/track', 'miri', 'eng_full', '--fam track,zst,raw', 8, q(tier, 1, 6), light=True, timeout=q(tier, 1500, 7200)),
